@@ -190,6 +190,20 @@ func (ex *Exec) wantConcrete(s value, what string) string {
 }
 
 func init() {
+	// maps.Clone: a shallow copy (entries share their values, as in Go)
+	reg("maps.Clone", func(ex *Exec, fr *frame, pos token.Pos, args []value) value {
+		m, ok := args[0].(*MapV)
+		if !ok || m == nil {
+			return args[0]
+		}
+		c := &MapV{keyT: m.keyT}
+		for _, e := range m.entries {
+			if !e.deleted {
+				c.entries = append(c.entries, &mapEntry{k: e.k, v: copyVal(e.v)})
+			}
+		}
+		return c
+	})
 	// ---- errors ----
 	reg("errors.New", func(ex *Exec, fr *frame, pos token.Pos, args []value) value {
 		s := args[0].(*Str)
